@@ -180,7 +180,7 @@ impl MemoryMappedPosition {
 //@ end
 
 /// same rule as the Anchor Position::reset_position_range when keep_owed == false (C12/C18); with keep_owed only zero liquidity is required (reposition instruction)
-//@ fn pinocchio/state/whirlpool/position.rs reset_position_range in=/^impl MemoryMappedPosition \{/ -> r
+//@ fn pinocchio/state/whirlpool/position.rs reset_position_range in=/^impl MemoryMappedPosition \{/ -> r canary
     requires whirlpool.tick_spacing_v() > 0,
     ensures ({
         let o = old(self).view(); let n = final(self).view();
@@ -197,7 +197,7 @@ impl MemoryMappedPosition {
 //@ end
 }
 
-//@ fn pinocchio/state/whirlpool/position.rs validate_tick_range_for_whirlpool -> r
+//@ fn pinocchio/state/whirlpool/position.rs validate_tick_range_for_whirlpool -> r canary
     requires whirlpool.tick_spacing_v() > 0,
     ensures
         r is Ok <==> range_valid(tick_lower_index as int, tick_upper_index as int, whirlpool.tick_spacing_v() as int),
